@@ -410,6 +410,10 @@ func (ie *initEval) eval(x ast.Expr, t types.Type) []string {
 		if v, ok := obj.(*types.Var); ok && len(layoutOf(v.Type()).Leaves) == 0 {
 			return nil
 		}
+		if v, ok := obj.(*types.Var); ok && v.Pkg() != nil && !isVerifiedPkgPath(v.Pkg().Path()) && types.Identical(v.Type(), types.Universe.Lookup("error").Type()) {
+			// exported error variable of the standard library; converted to the target interface type
+			return ie.vc.externErrVar(v.Pkg().Path() + "." + v.Name()).L
+		}
 		if id, ok := x.(*ast.Ident); ok && id.Name == "nil" {
 			return ie.zeroNested(t)
 		}
@@ -459,9 +463,20 @@ func globalName(g *ssa.Global) string {
 func (vc *VC) globalConstSyms(g *ssa.Global) []string {
 	gi := vc.w.globalInfoOf(g)
 	t := g.Type().(*types.Pointer).Elem()
+	if g.Pkg != nil && !isVerifiedPkgPath(g.Pkg.Pkg.Path()) {
+		if it, ok := t.Underlying().(*types.Interface); ok && types.Identical(t, types.Universe.Lookup("error").Type()) {
+			_ = it
+			vc.trusted["exported error variables of the standard library (io.EOF, io.ErrUnexpectedEOF, ...) are non-nil, pairwise distinct and never reassigned"] = true
+			return vc.externErrVar(g.Pkg.Pkg.Path() + "." + g.Name()).L
+		}
+	}
 	sorts := nestedLeafSorts(t)
 	var syms []string
 	for k, s := range sorts {
+		if gi.init != nil && !strings.HasPrefix(s, "(Array ") && len(gi.init.L[k]) < 64 {
+			syms = append(syms, gi.init.L[k])
+			continue
+		}
 		n := smtName(fmt.Sprintf("GC!%s!%d", globalName(g), k))
 		syms = append(syms, n)
 		if !vc.declared[n] {
